@@ -961,8 +961,14 @@ func GenWMPTRollback(r *rand.Rand, mode string) WHist {
 		h.Ops = append(h.Ops, WOp{Op: "gc"})
 	}
 	h.Ops = append(h.Ops, WOp{Op: "saveroot"})
-	// batch of subsequent changes
-	for i := 0; i < 1+r.Intn(6); i++ {
+	// batch of subsequent changes; a third of the histories read the root hash or the proofs while the batch is uncommitted
+	// (mid-batch or at its end): that caches hashes of states that are never stored
+	observe := r.Intn(3) == 0
+	nbatch := 1 + r.Intn(6)
+	for i := 0; i < nbatch; i++ {
+		if observe && i > 0 && r.Intn(3) == 0 {
+			h.Ops = append(h.Ops, WOp{Op: []string{"readroot", "owners"}[r.Intn(2)]})
+		}
 		k := r.Intn(nk)
 		if len(gone) > 0 && r.Intn(3) == 0 {
 			// a key that was deleted before the checkpoint comes back (fresh value): the structure around it recurs
@@ -987,6 +993,9 @@ func GenWMPTRollback(r *rand.Rand, mode string) WHist {
 			delete(cur, k)
 			h.Ops = append(h.Ops, WOp{Op: "delete", K: k})
 		}
+	}
+	if observe && r.Intn(2) == 0 {
+		h.Ops = append(h.Ops, WOp{Op: []string{"readroot", "owners"}[r.Intn(2)]})
 	}
 	h.Ops = append(h.Ops, WOp{Op: "commit", Level: []int{0, 1, 3, 64}[r.Intn(4)]})
 	if r.Intn(2) == 0 {
